@@ -240,6 +240,19 @@ class Stuck(Exception):
     pass
 
 
+def _unexpected(exc):
+    """An exception the harness did not anticipate while driving billiard.
+    Machinery faults stay harness errors (exit 2); anything else means the
+    tree under test did something the unchanged tree never does."""
+    if isinstance(exc, vs.HarnessError):
+        raise exc
+    import traceback
+    tb = traceback.extract_tb(exc.__traceback__)
+    where = '; '.join('%s:%d %s' % (f.filename.rsplit('/', 1)[-1], f.lineno,
+                                    f.name) for f in tb[-3:])
+    return '%s%s at %s' % (type(exc).__name__, _short(exc.args, 200), where)
+
+
 class Env:
     """One execution: world, scheduler, the real server and its accepter."""
 
@@ -663,6 +676,15 @@ def spec_of(name):
 def run_seq(typ, seq):
     """One op sequence through a proxy and on the local object.  Returns
     (outcome, violation, finding, log)."""
+    try:
+        return _run_seq(typ, seq)
+    except Exception as exc:
+        return (('error',), 'type %s, ops %r: driving the sequence failed: %s'
+                % (typ, [spec_of(typ).ops[i][0] for i in seq],
+                   _unexpected(exc)), None, [])
+
+
+def _run_seq(typ, seq):
     spec = spec_of(typ)
     out = {'res': [], 'viol': None, 'finding': None}
     with Env() as env:
@@ -736,7 +758,8 @@ def _task_a(arg):
     spec = spec_of(typ)
     n = len(spec.ops)
     res = dict(part='a', typ=typ, evals=0, steps=0, outcomes=set(),
-               viols=[], f10=0, f10_first=None, samples=[])
+               viols=[], nviol=0, f10=0, f10_first=None, samples=[])
+    pick = (7 * n) % max(1, n ** (depth - len(head)))
     for k, tail in enumerate(itertools.product(range(n),
                                                repeat=depth - len(head))):
         seq = tuple(head) + tail
@@ -745,15 +768,17 @@ def _task_a(arg):
         res['steps'] += len(seq)
         res['outcomes'].add(hashlib.sha1(
             repr((typ, outcome)).encode()).hexdigest()[:12])
-        if viol and len(res['viols']) < 3:
-            res['viols'].append((viol, dict(part='a', typ=typ,
-                                            seq=list(seq))))
+        if viol:
+            res['nviol'] += 1
+            if len(res['viols']) < MAX_REPORT:
+                res['viols'].append((viol, dict(part='a', typ=typ,
+                                                seq=list(seq))))
         if finding:
             res['f10'] += 1
             if res['f10_first'] is None:
                 res['f10_first'] = (finding, dict(part='a', typ=typ,
                                                   seq=list(seq)))
-        if len(res['samples']) < 1 and k == (7 * n) % max(1, n ** (depth - len(head))):
+        if k == pick:
             res['samples'].append(
                 {'type': typ, 'ops': [spec.ops[i][0] for i in seq],
                  'results': list(outcome)})
@@ -993,7 +1018,9 @@ def run_hist(hist, tier):
                 canon = life.canon()
                 events = life.enabled()
         except (Stuck, ActorError) as exc:
-            viol = 'history %r: %s: %s' % (list(hist), type(exc).__name__, exc)
+            viol = '%s: %s' % (type(exc).__name__, exc)
+        except Exception as exc:
+            viol = 'driving the history failed: ' + _unexpected(exc)
         if viol:
             viol = 'history %r: %s' % ([list(e) for e in hist], viol)
         log = env.log
@@ -1099,12 +1126,15 @@ def _monitor(env, must_live, bad):
     return mon
 
 
-def _explored_phase(env, jobs):
-    """Run the posted jobs under the explored choice sequence with line-level
-    preemption inside Server.serve_client/create/incref/decref."""
+def _explored_phase(env, jobs, lines=True):
+    """Run the posted jobs under the explored choice sequence, with line-level
+    preemption inside Server.serve_client/create/incref/decref unless
+    ``lines`` is false (then only pipe / lock / queue operations are
+    scheduling points)."""
     env.sched.choices = env.choices
     env.sched.last = None
-    _lines_on(env)
+    if lines:
+        _lines_on(env)
     try:
         env.wait(*jobs)
     finally:
@@ -1146,7 +1176,7 @@ def _run_lin(cfg, prefix):
                                       for op in seqs[0]))
             jb = B.post(lambda: tuple(_plain(_do(held['b'], op))
                                       for op in seqs[1]))
-            _explored_phase(env, (ja, jb))
+            _explored_phase(env, (ja, jb), cfg.get('lines', True))
             env.monitor = None
             final = A.call(
                 lambda: _plain(_call(ct['observe'], held['a'])))
@@ -1166,6 +1196,9 @@ def _run_lin(cfg, prefix):
                                 seqs[1], typ, seen))
         except (Stuck, ActorError) as exc:
             viol = '%s: %s' % (type(exc).__name__, exc)
+            outcome = ('error', type(exc).__name__)
+        except Exception as exc:
+            viol = 'driving the scenario failed: ' + _unexpected(exc)
             outcome = ('error', type(exc).__name__)
         log = env.log
         st = env.sched.status
@@ -1249,7 +1282,7 @@ def _run_life(cfg, prefix):
             bad = []
             env.monitor = _monitor(env, must, bad)
             ja, jb = A.post(fa), B.post(fb)
-            _explored_phase(env, (ja, jb))
+            _explored_phase(env, (ja, jb), cfg.get('lines', True))
             env.monitor = None
             ra, rb = ja.out, jb.out
             n = len(env.server_ids())
@@ -1288,6 +1321,9 @@ def _run_life(cfg, prefix):
                                     sorted(srv.id_to_refcount.values())))
         except (Stuck, ActorError) as exc:
             viol = '%s: %s' % (type(exc).__name__, exc)
+            outcome = ('error', sc, type(exc).__name__)
+        except Exception as exc:
+            viol = 'driving the scenario failed: ' + _unexpected(exc)
             outcome = ('error', sc, type(exc).__name__)
         log = env.log
         st = env.sched.status
@@ -1336,26 +1372,28 @@ def c_configs(tier):
                 for mode in modes:
                     out.append((dict(kind='lin', type=typ, seqs=[a, b],
                                      mode=mode, warm=True), 1, None))
-        if thorough and typ == 'Value':
+        if thorough:
+            # two preemptions at pipe / lock granularity
             for i, a in enumerate(one):
                 for b in one[i:]:
                     out.append((dict(kind='lin', type=typ, seqs=[a, b],
-                                     mode='threads', warm=True), 2, 150000))
+                                     mode='threads', warm=True, lines=False),
+                                2, 200000))
         # cold: the first call of each client (accept_connection, a new
         # serving thread) is inside the explored phase
         out.append((dict(kind='lin', type=typ, seqs=[one[0], one[1]],
-                         mode='threads', warm=False),
-                    1 if thorough else 0, 60000))
+                         mode='threads', warm=False, lines=thorough is False),
+                    1 if thorough else 0, 200000))
         two = [[x, y] for x in ops for y in ops if x != y]
         if thorough:
-            for a in two[:8]:
+            for a in two[:6]:
                 for b in one[:2]:
                     out.append((dict(kind='lin', type=typ, seqs=[a, b],
                                      mode='procs', warm=True), 1, None))
-            for a in two[:2]:
-                for b in two[1:3]:
-                    out.append((dict(kind='lin', type=typ, seqs=[a, b],
-                                     mode='threads', warm=True), 0, None))
+            for a, b in ((two[0], two[1]), (two[3], two[2])):
+                out.append((dict(kind='lin', type=typ, seqs=[a, b],
+                                 mode='threads', warm=True, lines=False),
+                            1, 200000))
         else:
             for a, b in ((two[0], one[1]), (two[3], one[0])):
                 out.append((dict(kind='lin', type=typ, seqs=[a, b],
@@ -1364,7 +1402,12 @@ def c_configs(tier):
                   ('call||drop', 1), ('create||drop', 0),
                   ('create||create', 0)):
         if thorough and b == 0:
-            out.append((dict(kind='life', scenario=sc), 1, 150000))
+            out.append((dict(kind='life', scenario=sc, lines=False), 1,
+                        200000))
+        elif thorough:
+            out.append((dict(kind='life', scenario=sc), b, None))
+            out.append((dict(kind='life', scenario=sc, lines=False), 2,
+                        200000))
         else:
             out.append((dict(kind='life', scenario=sc), b, None))
     return out
@@ -1394,6 +1437,15 @@ D_PATHS = ('connect', 'create', 'number_of_objects', 'proxy-incref',
 
 def run_key(name, key, path):
     """Returns (outcome, violation, log)."""
+    try:
+        return _run_key(name, key, path)
+    except Exception as exc:
+        return (('error', path, type(exc).__name__),
+                'client key %r (%s), %s: driving the scenario failed: %s' % (
+                    key, name, path, _unexpected(exc)), [])
+
+
+def _run_key(name, key, path):
     viol = None
     with Env() as env:
         srv = env.server
@@ -1542,6 +1594,9 @@ def _task_d(arg):
 
 
 # ------------------------------------------------------------------- driver
+MAX_REPORT = 3          # violations written out per part (all are counted)
+SAMPLE_TYPES = ('list', 'Namespace', 'BoundedSemaphore', 'Queue', 'Iterator')
+
 def _task(arg):
     kind = arg[0]
     return {'a': _task_a, 'b': _task_b, 'c': _task_c, 'd': _task_d}[kind](
@@ -1578,6 +1633,9 @@ def main(tier, seed, only=None):
         for i, r in zip(order, got):
             res[i] = r
 
+    nviol = collections.Counter()
+    nrep = collections.Counter()
+
     # ---- (a)
     by_type = collections.OrderedDict()
     f10_n, f10_first = 0, None
@@ -1591,7 +1649,10 @@ def main(tier, seed, only=None):
         d['outcomes'] |= r['outcomes']
         d['samples'] += r['samples']
         for msg, rp in r['viols']:
-            rep.violation(msg, dict(rp, harness='c20'))
+            nrep['a'] += 1
+            if nrep['a'] <= MAX_REPORT:
+                rep.violation(msg, dict(rp, harness='c20'))
+        nviol['a'] += r['nviol']
         f10_n += r['f10']
         if r['f10_first'] and (f10_first is None or
                                (len(r['f10_first'][1]['seq']),
@@ -1602,7 +1663,8 @@ def main(tier, seed, only=None):
     for typ, d in by_type.items():
         rep.part('equiv:' + typ, evaluations=d['evals'],
                  transitions=d['steps'], states=len(d['outcomes']),
-                 outcomes=d['outcomes'], samples=d['samples'][:1],
+                 outcomes=d['outcomes'],
+                 samples=d['samples'][:1] if typ in SAMPLE_TYPES else [],
                  depth=depth_of(typ, tier), alphabet=len(spec_of(typ).ops))
     if f10_n:
         rep.violation(
@@ -1625,9 +1687,11 @@ def main(tier, seed, only=None):
         st.__dict__.setdefault('configs', 0)
         st.configs += 1
         for ch, msg in r['violations']:
-            rep.violation('%s\nconfig=%r' % (msg, cfg),
-                          dict(harness='c20', part='c', config=cfg,
-                               choices=ch))
+            nviol['c'] += 1
+            if nviol['c'] <= MAX_REPORT:
+                rep.violation('%s\nconfig=%r' % (msg, cfg),
+                              dict(harness='c20', part='c', config=cfg,
+                                   choices=ch))
     for name in sorted(by_kind):
         st = by_kind[name]
         rep.stats(name, st, configs=st.configs)
@@ -1641,7 +1705,9 @@ def main(tier, seed, only=None):
         dd['outcomes'] |= r['outcomes']
         dd['samples'] += r['samples']
         for msg, rp in r['viols']:
-            rep.violation(msg, dict(rp, harness='c20'))
+            nviol['d'] += 1
+            if nviol['d'] <= MAX_REPORT:
+                rep.violation(msg, dict(rp, harness='c20'))
     if want('d'):
         rep.part('key', evaluations=dd['evals'], states=len(dd['outcomes']),
                  outcomes=dd['outcomes'], samples=dd['samples'][:2],
@@ -1695,6 +1761,10 @@ def main(tier, seed, only=None):
                  outcomes=seen, samples=smp[-2:] if smp else [],
                  max_depth=stats['depth'], caps_used=caps)
 
+    for part, n in sorted(nviol.items()):
+        if n > MAX_REPORT:
+            print('(part %s: %d further violating cases not written out)' % (
+                part, n - MAX_REPORT))
     rep.assume(
         'transport: listener_client["inproc"] = a billiard.connection.Pipe '
         'over virtual fds plus the real answer_challenge/deliver_challenge '
@@ -1726,6 +1796,9 @@ def replay(rp):
     elif part == 'c':
         x = make_runner(rp['config'])(rp['choices'])
         outcome, viol, log = x.outcome, x.violation, x.log
+        print('schedule (decision label -> alternative taken):')
+        for d in x.decisions:
+            print('  %s -> %d' % (d.label, d.chosen))
     elif part == 'd':
         key = bytes(rp['key']) if rp['key'] is not None else None
         outcome, viol, log = run_key(rp['name'], key, rp['path'])
